@@ -879,6 +879,65 @@ def normalise_namedtuple_classes(trees):
             tree.body[tree.body.index(cls)] = new
 
 
+def first_assigned_attributes(trees):
+    """{class: {method: [attribute names in the order `self.<attr>` is first assigned in the method]}}"""
+    out = {}
+    for tree in trees.values():
+        for cls in [n for n in tree.body if isinstance(n, ast.ClassDef)]:
+            for m in cls.body:
+                if isinstance(m, ast.FunctionDef) and m.args.args:
+                    s0 = m.args.args[0].arg
+                    names = []
+
+                    class V(ast.NodeVisitor):
+                        def visit_Attribute(self, n):
+                            self.generic_visit(n)
+                            if isinstance(n.ctx, ast.Store) and isinstance(n.value, ast.Name) and n.value.id == s0 and n.attr not in names:
+                                names.append(n.attr)
+                    V().visit(m)
+                    if names:
+                        out.setdefault(cls.name, {})[m.name] = names
+    return out
+
+
+def canonical_attribute_names(trees, ref):
+    """Bind consistently renamed attributes back to the names the rules use (spec.ATTR_ORDER).  A new name n stands for the
+    old name o when, in some method of the table, the sequence of first-assigned attributes differs from the table's by a
+    one-for-one replacement o -> n, o occurs nowhere in the package any more, and n is not a name of the table.  -> mapping"""
+    import difflib
+    cur = first_assigned_attributes(trees)
+    present = set()
+    for tree in trees.values():
+        for n in ast.walk(tree):
+            if isinstance(n, ast.Attribute):
+                present.add(n.attr)
+            elif isinstance(n, ast.Call) and isinstance(n.func, ast.Name) and n.func.id in ('hasattr', 'getattr', 'setattr') and len(n.args) >= 2 \
+                    and isinstance(n.args[1], ast.Constant) and isinstance(n.args[1].value, str):
+                present.add(n.args[1].value)
+    vocab = {a for ms in ref.values() for names in ms.values() for a in names}
+    mapping = {}
+    for cls, ms in ref.items():
+        for m, old in ms.items():
+            new = cur.get(cls, {}).get(m)
+            if not new or new == old:
+                continue
+            for tag, i1, i2, j1, j2 in difflib.SequenceMatcher(a=old, b=new, autojunk=False).get_opcodes():
+                if tag == 'replace' and i2 - i1 == j2 - j1:
+                    for o, n_ in zip(old[i1:i2], new[j1:j2]):
+                        if o not in present and n_ not in vocab and mapping.get(n_, o) == o and (o not in mapping.values() or mapping.get(n_) == o):
+                            mapping[n_] = o
+    if not mapping:
+        return {}
+    for tree in trees.values():
+        for n in ast.walk(tree):
+            if isinstance(n, ast.Attribute) and n.attr in mapping:
+                n.attr = mapping[n.attr]
+            elif isinstance(n, ast.Call) and isinstance(n.func, ast.Name) and n.func.id in ('hasattr', 'getattr', 'setattr') and len(n.args) >= 2 \
+                    and isinstance(n.args[1], ast.Constant) and n.args[1].value in mapping:
+                n.args[1].value = mapping[n.args[1].value]
+    return mapping
+
+
 def _never_none(v, fn):
     """is the expression certainly not None?  (literals, arithmetic, conversions, parameters that have no None default
     and are not re-bound)"""
@@ -1004,6 +1063,8 @@ class Repo:
                 self.modname[rel] = rel[:-3].replace(os.sep, '.')
         try:
             synthesise_dataclass_init(self.trees)
+            from .spec import ATTR_ORDER
+            self.renamed_attributes = canonical_attribute_names(self.trees, ATTR_ORDER)
             normalise_namedtuple_classes(self.trees)
             self.unsupported_properties = normalise_properties(self.trees)
             normalise_optional_attributes(self.trees)
@@ -1061,6 +1122,11 @@ class Repo:
         c = [f for f in self.funcs_by_name.get(name, []) if relpath is None or f.relpath == relpath]
         if len(c) == 1:
             return c[0]
+        if not c and relpath is not None:
+            # moved to another module of the same package directory (and imported back): the unique function of that name
+            c2 = [f for f in self.funcs_by_name.get(name, []) if os.path.dirname(f.relpath) == os.path.dirname(relpath)]
+            if len(c2) == 1:
+                return c2[0]
         if not c:
             pool = [f for fs in self.funcs_by_name.values() for f in fs if relpath is None or f.relpath == relpath]
             r = self._renamed(name, pool)
